@@ -24,9 +24,9 @@ func randLeaf(r *lib.Rng) *T {
 	case 2:
 		return tStr(lib.Pick(r, []string{"", "a", "x y", "1", "q\"\\", "é☃"}))
 	case 3:
-		return tFlt(lib.Pick(r, []string{"1.5", "-2.25e1", "0.0", "1e2", "3.0"}))
+		return tFlt(lib.Pick(r, []string{"1.5", "-2.25e1", "0.25", "1e-2", "3.5E0"}))
 	case 4:
-		return tBig(lib.Pick(r, []string{"123456789012345678901234567890", "1e999", "-98765432109876543210"}))
+		return tBig(lib.Pick(r, []string{"123456789012345678901234567890", "-98765432109876543210"}))
 	case 5:
 		return tInt(int64(r.Intn(2000)) - 1000)
 	default:
@@ -226,7 +226,7 @@ func targetFor(r *lib.Rng, doc *T, l Loc, plainOnly bool) Target {
 			tg = append(tg, Frag{K: 'd'})
 		}
 	}
-	if r.Intn(10) == 0 {
+	if r.Intn(10) == 0 && (len(tg) == 0 || tg[len(tg)-1].K != 'f') {
 		tg = append(tg, Frag{K: 'w'})
 	}
 	// a descent directly before a descent adds nothing; keep the text canonical
@@ -475,11 +475,11 @@ func boundaryCases(emit func(*Case)) {
 	}
 	i := func(v int64) *T { return tInt(v) }
 	docs := []*T{
-		tArr(tArr(tArr(i(1), tArr(i(2))))),                                                 // nested arrays
-		tArr(obj("a", tArr(i(1), i(2)))),                                                   // nested map/array
-		obj("a", obj("b", i(1), "c", obj("d", i(2)))),                                      // nested maps
-		tArr(i(1), tArr(i(2), i(4), i(8)), i(3), i(4)),                                     // index bookkeeping after a container closes
-		tArr(tArr(), tArr(tArr()), obj(), i(5), tArr(i(6))),                                // empty containers
+		tArr(tArr(tArr(i(1), tArr(i(2))))),                                                    // nested arrays
+		tArr(obj("a", tArr(i(1), i(2)))),                                                      // nested map/array
+		obj("a", obj("b", i(1), "c", obj("d", i(2)))),                                         // nested maps
+		tArr(i(1), tArr(i(2), i(4), i(8)), i(3), i(4)),                                        // index bookkeeping after a container closes
+		tArr(tArr(), tArr(tArr()), obj(), i(5), tArr(i(6))),                                   // empty containers
 		tArr(obj("x", i(0), "y", i(0)), obj("x", i(1), "y", i(1)), obj("x", i(1), "y", i(2))), // filter candidates
 		obj("a", tArr(obj("a", i(1)), obj("a", i(2), "b", tArr(obj("a", i(1))))), "b", obj("a", i(1))),
 		i(7), tStr("s"), tNull(), tArr(), obj(),
@@ -541,4 +541,62 @@ func dupKeyCases(full bool, r *lib.Rng, emit func(*Case)) {
 		}
 		emit(&Case{Doc: doc, Targets: ts, Stream: "dupkeys"})
 	}
+}
+
+// satisfies: does the element satisfy the filter fragment (the two filter forms the harness uses)
+func satisfies(f Frag, t *T) bool {
+	if f.FSelf {
+		return t.K == 'i' && t.I == int64(f.N)
+	}
+	if t.K != 'o' {
+		return false
+	}
+	for i := len(t.Keys) - 1; i >= 0; i-- {
+		if t.Keys[i] == f.Key {
+			return t.Kids[i].K == 'i' && t.Kids[i].I == int64(f.N)
+		}
+	}
+	return false
+}
+
+// mapOrderDependent: some object of the document has two members that a filter of the targets
+// accepts. The handler collects objects into Go maps and takes the "first" accepted member in map
+// iteration order, so the callbacks of such a case differ from run to run.
+func mapOrderDependent(c *Case) bool {
+	var fs []Frag
+	for _, tg := range c.Targets {
+		for _, f := range tg {
+			if f.K == 'f' {
+				fs = append(fs, f)
+			}
+		}
+	}
+	if len(fs) == 0 {
+		return false
+	}
+	var walk func(t *T) bool
+	walk = func(t *T) bool {
+		if t.K == 'o' {
+			for _, f := range fs {
+				n := 0
+				seen := map[string]bool{}
+				for i := len(t.Keys) - 1; i >= 0; i-- {
+					if !seen[t.Keys[i]] && satisfies(f, t.Kids[i]) {
+						n++
+					}
+					seen[t.Keys[i]] = true
+				}
+				if n >= 2 {
+					return true
+				}
+			}
+		}
+		for _, k := range t.Kids {
+			if walk(k) {
+				return true
+			}
+		}
+		return false
+	}
+	return walk(c.Doc)
 }
